@@ -140,6 +140,11 @@ func baseCorpus(r *core.Run, rng *rand.Rand, perContainer int, withRepo bool) ([
 		}
 		n++
 	}
+	// the same containers WITHOUT Exif: the scanners run to the end of the file (the kinds of Decode.tla)
+	tl := gen.BuildFullTIFF(rand.New(rand.NewSource(r.Seed)), "LE")
+	for _, k := range []struct{ kind, dk string }{{"png", "png0"}, {"jpeg", "jpeg0"}, {"heif", "heif0"}, {"other", "gif"}, {"other", "rw2"}} {
+		out = append(out, fileInput{Name: "gen:noexif/" + k.dk, Kind: k.kind, Data: decodeKindBytes(k.dk, tl, tl, rng), Gen: true})
+	}
 	out = append(out, fileInput{Name: "gen:xmp/sample", Kind: "xmp", Data: []byte(sampleXMP), Gen: true})
 	out = append(out, fileInput{Name: "gen:xmp/junk+sample", Kind: "xmp", Data: append([]byte(strings.Repeat("junk <a> ", 30)), sampleXMP...), Gen: true})
 	if withRepo {
